@@ -2257,6 +2257,39 @@ def _iter_protocol(tree):
     return count[0]
 
 
+def _partial_methods(tree):
+    """`NAME = functools.partialmethod(H, fixed.., k=v..)` in a class body, H a method of that class: the method it
+    stands for — `def NAME(self, <the remaining parameters of H>): return self.H(fixed.., <remaining>, k=v..)`"""
+    count = 0
+    for c in [n for n in tree.body if isinstance(n, ast.ClassDef)]:
+        methods = {st.name: st for st in c.body if isinstance(st, ast.FunctionDef)}
+        out = []
+        for st in c.body:
+            v = getattr(st, "value", None)
+            tgt = st.targets[0] if isinstance(st, ast.Assign) and len(st.targets) == 1 else st.target if isinstance(st, ast.AnnAssign) else None
+            if isinstance(tgt, ast.Name) and isinstance(v, ast.Call) and ast.unparse(v.func) in ("functools.partialmethod", "partialmethod") and v.args and isinstance(v.args[0], ast.Name) and v.args[0].id in methods and not any(isinstance(a, ast.Starred) for a in v.args) and all(k.arg for k in v.keywords):
+                h = methods[v.args[0].id]
+                a = h.args
+                if not (a.vararg or a.kwarg or a.kwonlyargs or a.posonlyargs or h.decorator_list) and a.args and all(_simple(x) for x in v.args[1:]) and all(_simple(k.value) for k in v.keywords):
+                    fixed = v.args[1:]
+                    params = a.args[1:]
+                    defaults = dict(zip([p_.arg for p_ in a.args[len(a.args) - len(a.defaults):]], a.defaults))
+                    kw = {k.arg for k in v.keywords}
+                    rest = [p_ for p_ in params[len(fixed):] if p_.arg not in kw]
+                    if len(fixed) <= len(params) and kw <= {p_.arg for p_ in params[len(fixed):]}:
+                        me = a.args[0].arg
+                        call = ast.Call(func=ast.Attribute(value=ast.Name(id=me, ctx=ast.Load()), attr=h.name, ctx=ast.Load()), args=[copy.deepcopy(x) for x in fixed] + [ast.Name(id=p_.arg, ctx=ast.Load()) for p_ in rest], keywords=[copy.deepcopy(k) for k in v.keywords])
+                        rest_defaults = [copy.deepcopy(defaults[p_.arg]) for p_ in rest if p_.arg in defaults]
+                        if all(p_.arg in defaults for p_ in rest[len(rest) - len(rest_defaults):]) and len([p_ for p_ in rest if p_.arg in defaults]) == len(rest_defaults):
+                            f = ast.FunctionDef(name=tgt.id, args=ast.arguments(posonlyargs=[], args=[ast.arg(arg=me)] + [ast.arg(arg=p_.arg) for p_ in rest], vararg=None, kwonlyargs=[], kw_defaults=[], kwarg=None, defaults=rest_defaults), body=[ast.Return(value=call)], decorator_list=[], returns=None, type_comment=None)
+                            out.append(ast.fix_missing_locations(ast.copy_location(f, st)))
+                            count += 1
+                            continue
+            out.append(st)
+        c.body = out
+    return count
+
+
 def _single_dispatch(tree):
     """A module-level `functools.singledispatch` function with its registrations (`@f.register(T)` — also stacked —,
     `@f.register` with an annotated first parameter, `f.register(T, impl)`, `f.register(T)(impl)`) is the type switch
@@ -2423,6 +2456,7 @@ def _unpack_displays(tree):
 def normalise(tree):
     """unroll table-driven loops and fold constant getattr / setattr; returns (tree, number of loops unrolled)"""
     _single_dispatch(tree)
+    _partial_methods(tree)
     _module_instances(tree)
     _unpack_displays(tree)
     _yield_from_loops(tree)
